@@ -28,7 +28,48 @@ def powHashTrits (data : List UInt8) (nonce : Nat) : List Int :=
   let s := Spec.CurlP.Sponge.init.absorb block 1
   (s.squeeze 1).2
 
+/-- Curl-P-81 of the block a worker hashes for a given digest and nonce -/
+def digestHashTrits (digest : List UInt8) (nonce : Nat) : List Int :=
+  let block := B1T6.encode digest ++ B1T6.encode (nonceBytes (nonce % 2 ^ 64))
+  let block := block ++ List.replicate (243 - block.length) 0
+  let s := Spec.CurlP.Sponge.init.absorb block 1
+  (s.squeeze 1).2
+
+/-- the bit planes `CopyState` leaves for 64 lanes of trits: l-bit set iff trit ≤ 0, h-bit set iff trit ≥ 0 -/
+def planesOfLanes (lanes : Array (Array Int)) : Planes × Planes :=
+  let word (f : Int → Bool) (j : Nat) : W :=
+    (List.range 64).foldl (fun acc i => if f ((lanes.getD i #[]).getD j 0) then acc ||| (1#64 <<< i) else acc) 0#64
+  (Vector.ofFn fun j => word (· ≤ 0) j.val, Vector.ofFn fun j => word (· ≥ 0) j.val)
+
+/-- the sequential worker loop: batches of 64 consecutive nonces (wrapping mod 2^64) from `start`, the lane test
+`test` of the model on each batch's planes; the first hit is returned. -/
+def workerLoop (digest : List UInt8) (test : Planes → Planes → Nat) : Nat → Nat → Option Nat
+  | 0, _ => none
+  | fuel + 1, nonce =>
+    let lanes := (Array.range 64).map fun i => (digestHashTrits digest (nonce + i)).toArray
+    let (l, h) := planesOfLanes lanes
+    let i := test l h
+    if i < 64 then some ((nonce + i) % 2 ^ 64) else workerLoop digest test fuel ((nonce + 64) % 2 ^ 64)
+
 def ops : List (String × Handler) := [
+  -- one worker goroutine's mining loop from an arbitrary start nonce (v1: zero count; v2: len·t)
+  ("pow1.worker", fun
+    | [d, st, z] => match bytesOfHex d, st.toNat?, z.toNat? with
+      | some digest, some start, some z =>
+        match workerLoop digest (fun l h => checkV1 l h z) 400 start with
+        | some n => toString n
+        | none => "notfound"
+      | _, _, _ => badOp
+    | _ => badOp),
+  ("pow2.worker", fun
+    | [d, st, dl, t] => match bytesOfHex d, st.toNat?, dl.toNat?, t.toNat? with
+      | some digest, some start, some dl, some t =>
+        let lx := (dl + 8) * t
+        match workerLoop digest (fun l h => checkV2 l h (sufficientTrailingZeros lx) (targetHash lx)) 400 start with
+        | some n => toString n
+        | none => "notfound"
+      | _, _, _, _ => badOp
+    | _ => badOp),
   -- hypothesis of the v1 soundness theorem, exercised on the implementation: z ↦ math.Pow(3,z)/len is
   -- strictly increasing on 0..243 for this len.  The model side has nothing to compute.
   ("pow1.mono", fun _ => "mono"),
